@@ -34,6 +34,7 @@ def floors(m, tier):
     u, k = BUDGET[tier]
     c = m.counters
     f = {"rule evaluations": (c.get("rule_evals", 0), u * k),
+         "alias filters on concrete Sids": (c.get("alias_filter_on_concrete_sid", 0), u),
          "FindInConstants asked directly": (c.get("constants_finder_asked_directly", 0), u),
          "searches on a FindInConstants over an open key": (c.get("open_constants_searches", 0), u * 2),
          "... with a non-empty answer": (c.get("open_constants_nonempty", 0), u // 2)}
@@ -215,6 +216,10 @@ def check_filter_and_literal(rec, lab, name, finder, s, case):
                         rec.violation("algebra_literal", c, "missing=%r extra=%r" % (sorted(exp - set(got))[:5], sorted(set(got) - exp)[:5]))
 
 
+def model_alias(lab):
+    return bool(lab.model.alias)
+
+
 def add_dup_finder(lab):
     """A list source that carries some entries more than once (concatenated exports): results still never contain duplicates."""
     from spil import FindInList
@@ -312,6 +317,22 @@ def worker(args):
         uid = "%s-%d" % (args.get("seed"), u)
         case = {"ents": ents, "names": lab.names, "only_default": lab.only_default, "uid": uid}
         check_open_constants(rec, lab, case)
+        # an alias given as FILTER on a concrete (symbol-free) Sid - a leaf, or its parent level - equals the union of its members
+        if model_alias(lab):
+            for _ in range(4):
+                e = rng.choice(lab.full)
+                t = lab.model.natural(e)
+                leaf = lab.model.leaf_keys.get(lab.model.basetype(t.name)) if t is not None else None
+                if not leaf or (t.keys[-1] != leaf and not any(u.keys[:-1] == t.keys and u.keys[-1] == leaf for u in lab.model.templates)):
+                    continue
+                a = rng.choice(sorted(lab.model.alias))
+                s2 = "%s?%s=%s" % (e, leaf, a)
+                ders = ["%s?%s=%s" % (e, leaf, m) for m in lab.model.alias[a]]
+                rec.ev()
+                rec.count("alias_filter_on_concrete_sid")
+                for name, f in lab.finders.items():
+                    if not name.startswith("const:"):
+                        check_pair(rec, lab, name, f, "alias", s2, ders, None, case)
         for k in range(args["searches"]):
             s, info = lab.search(allow_last=False)
             if filter_is_unspecified(s) or ">" in s:
